@@ -51,6 +51,12 @@ def run_one(prop, tier, explain):
             from sa import thorough
             thorough.extras(prop, repo, rep)
             thorough.variant_stability(prop, rep, None)
+            import json as _json
+            kf = [k for k in _json.load(open(os.path.join(os.path.dirname(os.path.dirname(os.path.abspath(__file__))), "known_findings.json"))).get("findings", [])
+                  if k.get("property") == prop]
+            newf = [f for f in rep.findings if f.key not in {k["key"] for k in kf}]
+            base = (1 if newf else 0, len([f for f in rep.findings if f.key in {k["key"] for k in kf}]))
+            thorough.corpus_stability(prop, rep, base)
         rc = rep.finish(explanation, level=getattr(mod, "LEVEL", "other"))
         if explain is not None:
             fs = [f for f in rep.findings]
